@@ -31,6 +31,8 @@ func main() {
 	doClock := flag.String("clock", "", "comma list of package dir prefixes or files to redirect time.* in")
 	doRand := flag.String("rand", "", "comma list of package dir prefixes to redirect math/rand in")
 	extra := flag.String("extrafiles", "", "comma list of absolute files outside the repo to clock-rewrite (e.g. module cache)")
+	doDelay := flag.String("delayctx", "", "comma list of files in which context.WithTimeout(context.Background(), d) is a pure delay: redirected to vclock.DelayContext(d)")
+	doStmt := flag.String("stmt", "", "comma list of package dir prefixes or files in which every statement is preceded by a scheduling point (statement-granular interleavings under the controlled scheduler)")
 	flag.Parse()
 	if *out == "" {
 		fmt.Fprintln(os.Stderr, "need -out")
@@ -76,10 +78,11 @@ func main() {
 	for _, f := range files {
 		rel, _ := filepath.Rel(*repo, f)
 		s, c, r := match(*doSync, rel), match(*doClock, rel), match(*doRand, rel)
-		if !s && !c && !r {
+		dl, sm := match(*doDelay, rel), match(*doStmt, rel)
+		if !s && !c && !r && !dl && !sm {
 			continue
 		}
-		src, changed, err := rewrite(f, s, c, r)
+		src, changed, err := rewrite(f, s, c, r, dl, sm)
 		if err != nil {
 			fmt.Fprintf(os.Stderr, "vinstr: %s: %v\n", f, err)
 			os.Exit(2)
@@ -114,7 +117,7 @@ func main() {
 	json.NewEncoder(os.Stdout).Encode(mapping)
 }
 
-func rewrite(path string, doSync, doClock, doRand bool) ([]byte, bool, error) {
+func rewrite(path string, doSync, doClock, doRand, doDelay, doStmt bool) ([]byte, bool, error) {
 	fset := token.NewFileSet()
 	file, err := parser.ParseFile(fset, path, nil, parser.ParseComments)
 	if err != nil {
@@ -207,6 +210,71 @@ func rewrite(path string, doSync, doClock, doRand bool) ([]byte, bool, error) {
 			return true
 		})
 	}
+	if doDelay {
+		// context.WithTimeout(context.Background(), d) -> vclock.DelayContext(d)
+		ast.Inspect(file, func(n ast.Node) bool {
+			call, ok := n.(*ast.CallExpr)
+			if !ok || len(call.Args) != 2 {
+				return true
+			}
+			sel, ok := call.Fun.(*ast.SelectorExpr)
+			if !ok || sel.Sel.Name != "WithTimeout" {
+				return true
+			}
+			if id, ok := sel.X.(*ast.Ident); !ok || id.Name != "context" {
+				return true
+			}
+			bg, ok := call.Args[0].(*ast.CallExpr)
+			if !ok {
+				return true
+			}
+			bsel, ok := bg.Fun.(*ast.SelectorExpr)
+			if !ok || bsel.Sel.Name != "Background" {
+				return true
+			}
+			call.Fun = &ast.SelectorExpr{X: ast.NewIdent("vclock"), Sel: ast.NewIdent("DelayContext")}
+			call.Args = call.Args[1:]
+			needClock = true
+			return true
+		})
+	}
+	if doStmt {
+		point := func() ast.Stmt {
+			return &ast.ExprStmt{X: &ast.CallExpr{Fun: &ast.SelectorExpr{X: ast.NewIdent("vsched"), Sel: ast.NewIdent("Point")},
+				Args: []ast.Expr{&ast.BasicLit{Kind: token.STRING, Value: strconv.Quote("stmt")}, ast.NewIdent("nil")}}}
+		}
+		withPoints := func(list []ast.Stmt) []ast.Stmt {
+			out := make([]ast.Stmt, 0, 2*len(list))
+			for _, st := range list {
+				out = append(out, point(), st)
+			}
+			return out
+		}
+		ast.Inspect(file, func(n ast.Node) bool {
+			switch x := n.(type) {
+			case *ast.FuncDecl:
+				if x.Name.Name == "init" {
+					return false
+				}
+			case *ast.BlockStmt:
+				if len(x.List) > 0 {
+					x.List = withPoints(x.List)
+					needSched = true
+				}
+			case *ast.CaseClause:
+				if len(x.Body) > 0 {
+					x.Body = withPoints(x.Body)
+					needSched = true
+				}
+			case *ast.CommClause:
+				if len(x.Body) > 0 {
+					x.Body = withPoints(x.Body)
+					needSched = true
+				}
+			}
+			return true
+		})
+	}
 	if needSched || needClock {
 		changed = true
 	}
@@ -240,7 +308,7 @@ func rewrite(path string, doSync, doClock, doRand bool) ([]byte, bool, error) {
 		return nil, false, err
 	}
 	src := buf.Bytes()
-	if needClock {
+	if needClock && timeName != "" {
 		// keep the time import used
 		src = append(src, []byte("\nvar _ = "+timeName+".Second\n")...)
 	}
